@@ -326,6 +326,15 @@ class ManualH2Peer(simnet.H2Peer):
             self.goaway_top = max(list(self.streams) + [0])
         elif kind == "eof":
             self.server_closed = True
+        elif kind == "badframe":
+            # bytes no HTTP/2 end point may send: the client's h2 raises a ProtocolError subclass from receive_data()
+            self.flush()
+            raw = [b"\x00\x00\x04\x08\x00\x00\x00\x00\x00" + b"\x00\x00\x00\x00",     # WINDOW_UPDATE with increment 0
+                   b"\x00\x00\x01\x00\x00\x00\x00\x00\x00" + b"x",                      # DATA on stream 0
+                   b"\x00\x00\x01\x01\x04\x00\x00\x00\x02" + b"\x88",                   # a response on a stream nobody opened
+                   b"\x00\x00\x05\x04\x00\x00\x00\x00\x00" + b"12345"][act[2]]          # SETTINGS whose length is not a multiple of 6
+            self.push_raw(bytes(raw))
+            self.sent_garbage = True
         self.flush()
 
 
@@ -421,11 +430,16 @@ class H2Explorer(concur.Explorer):
                         c.release = anyio.Event()
                         await c.release.wait()
                         c.state = "running"
-                    if c.mode != "abandon":
+                    if c.mode == "partial":
+                        # take what the first read of the body yields, then close the response without draining it
+                        async for part in resp.aiter_stream():
+                            c.got += part
+                            break
+                    elif c.mode != "abandon":
                         async for part in resp.aiter_stream():
                             c.got += part
                         c.body = c.got
-                c.outcome = "ok" if c.mode != "abandon" else "abandoned"
+                c.outcome = "ok" if c.mode not in ("abandon", "partial") else "abandoned"
             if scope.cancelled_caught:
                 c.outcome = "cancelled"
         except BaseException as e:  # noqa
@@ -537,7 +551,7 @@ class H2Explorer(concur.Explorer):
 def gen_caller(rng, cfg, i):
     up = rng.choice(cfg.get("ups", [0, 0, 5, 300]))
     down = rng.choice(cfg.get("downs", [0, 10, 3000]))
-    modes = ["read"] * 5 + ["hold"] * 2 + (["abandon"] if cfg.get("abandon") else [])
+    modes = ["read"] * 5 + ["hold"] * 2 + (["abandon"] if cfg.get("abandon") else []) + (["partial"] * 3 if cfg.get("partial") else [])
     chunks = rng.choice([0, 0, 1, 2, 3, 4]) if up else rng.choice([0, 0, 0, 1])
     c = Caller(i, up, down, rng.choice(modes), chunks)
     if cfg.get("origins", 1) > 1:
@@ -607,6 +621,8 @@ async def schedule(ex, spawn, settle):
             opts += ["goaway"]
         if live and cfg.get("p_eof") and rng.random() < cfg["p_eof"]:
             opts += ["eof"]
+        if live and cfg.get("p_badframe") and rng.random() < cfg["p_badframe"] and not any(getattr(p, "sent_garbage", False) for p in live):
+            opts += ["badframe"]
         pend = [p for p in ex.net.pending if not p.done and p.rec["op"] in ("read", "write")]
         if pend and cfg.get("p_fault") and rng.random() < cfg["p_fault"]:
             opts += ["fault"]
@@ -615,6 +631,12 @@ async def schedule(ex, spawn, settle):
                    (cfg.get("cancel_phase", "response") == "any" or (getattr(c, "status", None) is not None and c.idx not in writing))]
         if running and cfg.get("p_cancel") and rng.random() < cfg["p_cancel"]:
             opts += ["cancel"] * 2
+        # callers parked in a network write in the response phase (flow-control credit, SETTINGS acknowledgement): rare moments, aimed at
+        # only when the profile asks for it
+        wr_running = [c for c in running if c.idx in writing and getattr(c, "status", None) is not None] \
+            if cfg.get("p_cancel_writer") and sum(1 for t in ex.trace if t[0] == "cancel" and t[2] == "scope-in-write") < cfg.get("max_cancel_writer", 99) else []
+        if wr_running and rng.random() < cfg["p_cancel_writer"]:
+            opts += ["cancel_writer"] * 4
         holding = [c for c in ex.callers if c.state == "holding"]
         if holding:
             opts += ["release"] * 2
@@ -690,6 +712,12 @@ async def schedule(ex, spawn, settle):
             ex.trace.append(act)
             peer.do(act, rng, cfg)
             mark_conn_disturbed(peer)
+        elif a == "badframe":
+            peer = rng.choice(live)
+            act = ("badframe", peer.idx, rng.randrange(4))
+            ex.trace.append(act)
+            peer.do(act, rng, cfg)
+            mark_conn_disturbed(peer)
         elif a == "eof":
             peer = rng.choice(live)
             ex.trace.append(("eof", peer.idx))
@@ -710,6 +738,12 @@ async def schedule(ex, spawn, settle):
             c = rng.choice(running)
             c.cancel_requested = True
             ex.trace.append(("cancel", c.idx, "scope"))
+            if c.scope is not None:
+                c.scope.cancel()
+        elif a == "cancel_writer":
+            c = rng.choice(wr_running)
+            c.cancel_requested = True
+            ex.trace.append(("cancel", c.idx, "scope-in-write"))
             if c.scope is not None:
                 c.scope.cancel()
         elif a == "release":
